@@ -635,7 +635,30 @@ func (e *AnimEncoder) AddFrame(img image.Image, duration time.Duration) error {
 	}
 	// Use the registered encoder function with sub-frame optimization.
 	if FrameEncoderFunc != nil {
-		return e.addOptimizedFrame(img, duration)
+		durMS := duration / time.Millisecond
+		if durMS <= maxDuration {
+			return e.addOptimizedFrame(img, duration)
+		}
+		// A single frame can be shown for at most maxDuration ms. Show the
+		// picture that long and keep it on screen for the rest of the time
+		// with filler frames, as merging identical pictures does.
+		if durMS > 64*maxDuration {
+			return fmt.Errorf("animation: frame duration %v too long", duration)
+		}
+		if err := e.addOptimizedFrame(img, maxDuration*time.Millisecond); err != nil {
+			return err
+		}
+		for extra := int(durMS) - maxDuration; extra > 0; {
+			step := extra
+			if step > maxDuration {
+				step = maxDuration
+			}
+			if err := e.increasePreviousDuration(step); err != nil {
+				return err
+			}
+			extra -= step
+		}
+		return nil
 	}
 	return errors.New("animation: no frame encoder available; use AddRawFrame or register FrameEncoderFunc")
 }
